@@ -9,9 +9,7 @@ verus! {
 // ---------------------------------------------------------------------------
 // std specifications not in vstd (A-std)
 // ---------------------------------------------------------------------------
-pub assume_specification<T, F: FnOnce(T) -> bool> [Option::<T>::is_some_and] (o: Option<T>, f: F) -> (r: bool)
-    requires o.is_some() ==> f.requires((o.unwrap(),))
-    ensures o.is_none() ==> !r, o.is_some() ==> f.ensures((o.unwrap(),), r);
+// (Option::is_some_and is specified in the range unit)
 
 // ---------------------------------------------------------------------------
 // stubs of the surrounding system (E9): store, p2p, events, clock
